@@ -484,14 +484,14 @@ Definition m_mapcar (c : call) : res :=
   end.
 
 (* ==== reduce.go ====================================================================================== *)
-(* :end first (0 <= end <= len), then :start against the shortened list (0 <= start < len), then
+(* :end first (0 <= end <= len), then :start against the shortened list (0 <= start <= len), then
    :key over the elements (into a fresh list of keys: the argument is left alone), then the fold; an empty list gives the
    initial value or the Go nil *)
 Definition m_reduce_list (c : call) (l : list Z) : res :=
   match (match c_end c with None => Some l | Some e => if (e <=? length l)%nat then Some (firstn e l) else None end) with
   | None => RErr EType
   | Some l1 =>
-  match (match c_start c with None => Some l1 | Some st => if (st <? length l1)%nat then Some (skipn st l1) else None end) with
+  match (match c_start c with None => Some l1 | Some st => if (st <=? length l1)%nat then Some (skipn st l1) else None end) with
   | None => RErr EType
   | Some l2 =>
       let ks := map (key_app (c_key c)) l2 in
